@@ -83,6 +83,65 @@ theorem format_idem_text (t : PExp) (h : WF t) (ht : TextOK t) :
     ∃ t', parseText (fmtExp t).toList = .ok t' ∧ fmtExp t' = fmtExp t :=
   ⟨t, parse_format_text t h ht, rfl⟩
 
+/-! ### the decimal grammar of number tokens
+
+`Display for Primitive::Number` (after c69442f / 8a8f98f) writes a finite number either as a digit string `ddd` or as
+`ddd.ddd` — never with an exponent or a sign.  For EVERY text of this decimal grammar the lexer model reads exactly
+one number token, and the parser model reads that token back as the literal: the half of `NumTokenOk` that is
+about the grammar is a theorem; that Rust's printer stays inside this grammar and that the text denotes the same
+`f64` is checked by the harness on every literal. -/
+
+/-- the decimal grammar of printed numbers: digits, or digits `.` digits -/
+def DecimalText (s : String) : Prop :=
+  (s.toList ≠ [] ∧ ∀ d ∈ s.toList, isDigit d = true) ∨ FloatParts s
+
+/-- the token a decimal text is read as -/
+def numToken (s : String) : Tok := if s.toList.all isDigit then .int s else .float s
+
+/-- **every text of the decimal grammar is one number token** -/
+theorem decimal_text_is_one_token (s : String) (h : DecimalText s) : lex s.toList = .ok [numToken s] := by
+  rcases h with ⟨hne, hd⟩ | ⟨ds, fs, hs, hne, hnf, hds, hfs⟩
+  · have hall : s.toList.all isDigit = true := by simpa [List.all_eq_true] using hd
+    have := lexTo_int s.toList [] false [] hne hd (Or.inl rfl)
+    have h2 := lex_of_lexTo (by simpa using this)
+    simpa [numToken, hall] using h2
+  · have hnot : s.toList.all isDigit = false := by
+      rw [hs]
+      simp only [List.all_append, List.all_cons, Bool.and_eq_false_iff]
+      right; left; decide
+    have := lexTo_float ds fs [] false [] hne hnf hds hfs (Or.inl rfl)
+    simp only [List.append_nil] at this
+    have h2 := lex_of_lexTo this
+    have hs' : String.ofList (ds ++ '.' :: fs) = s := by rw [← hs]; simp
+    rw [hs'] at h2
+    rw [hs]
+    simpa [numToken, hnot] using h2
+
+/-- … and the parser model reads the token back as the literal it is: the integer (if it fits `i64`) or the decimal -/
+theorem decimal_text_parses (s : String) (h : DecimalText s) :
+    parseText s.toList = (if s.toList.all isDigit then
+        (if digitsToNat s.toList ≤ i64Max then .ok (.int (digitsToNat s.toList)) else .err .reject)
+      else .ok (.num s)) := by
+  simp only [parseText, decimal_text_is_one_token s h, numToken]
+  by_cases hall : s.toList.all isDigit = true
+  · simp only [hall, if_true]
+    by_cases hle : digitsToNat s.toList ≤ i64Max
+    · simp only [hle, if_true]
+      rw [parse_tk (Tk.atom (Atom.int s hle))]
+    · simp only [hle, if_false]
+      have hraw : parseToksRaw [Tok.int s] = .ok (.int (digitsToNat s.toList)) := by
+        have hl : leaf 14 [Tok.int s] = .ok (.int (digitsToNat s.toList), []) := by
+          rw [leaf_int]
+          apply imul_single 12 _ _ _ _ (optVariable_follow (Or.inl rfl) 11)
+          rw [atoms_int 11 s [] []]
+          exact atoms_follow (Or.inl rfl) 10 _
+        have hu : optUnary [Tok.int s] = ([], [Tok.int s]) := optUnary_plain (by simp [unRule, ruleOfTok, Tok.opSpelling]) []
+        simp [parseToksRaw, parseFuel, parseExp, collect, hu, hl, collectLoop, prattParse, expr, nud, loop, lbp]
+      simp [parseToks, hraw, buildErr, hle]
+  · have hf : s.toList.all isDigit = false := by simpa using hall
+    simp only [hf, Bool.false_eq_true, if_false]
+    rw [parse_tk (Tk.atom (Atom.num s))]
+
 /-! ### whole programs of the printable fragment
 
 `parseProgram` is the program-level parser model (`Rooc/Syntax/Program.lean`: PEG phase, then the AST builders
@@ -144,7 +203,7 @@ theorem sample_array_printable : coreExp (.prim "[1, 2, 3]") = true := by
 theorem sample_printable : printable sampleProgram = true := by
   simp [printable, coreProgram, sampleProgram, coreExp, coreList, coreIdx, coreIters, coreIter, coreFor, coreName,
     coreType, printableIterVar, notForHead, constraintToks, domainToks, cnameToks, fmtToks, varListToks, sample_array_printable,
-    isRangeSugar, printsParen, forToks, binKwTok, blockKindErr, i64Max, Gen.scopedKinds, Gen.blockKinds, Gen.blockArity]
+    printsParen, forToks, binKwTok, blockKindErr, i64Max, Gen.scopedKinds, Gen.blockKinds, Gen.blockArity]
   decide
 
 /-- … and so the round trip holds for it -/
@@ -182,5 +241,39 @@ theorem text_solve_and_names :
     ({ objKind := .solve, objective := .bool true, constraints := [], constants := [], domains := [] } : PModel).text = "solve\ns.t.\n"
     ∧ varText "_u" = "_u" ∧ varText "$_v" = "$_v" ∧ varText "__w" = "__w" ∧ varText "x_1" = "\\x_1" := by
   refine ⟨by simp [PModel.text, ObjKind.text], ?_, ?_, ?_, ?_⟩ <;> simp [varText, needsEscape] <;> decide
+
+/-! ### regression theorems for the printer repairs 10f80da / 7352fcb (the inputs of the former findings) -/
+
+/-- the range sugar is written only where an iterator is expected: `len(range(0, 3, false))` keeps the call form,
+`sum(i in 0..3) { i }` the sugar (C11-range-sugar-outside-iterator, repaired in 10f80da) -/
+theorem text_range_sugar_only_in_iterators :
+    fmtExp (.call "len" [.call "range" [.int 0, .int 3, .bool false]]) = "len(range(0, 3, false))"
+    ∧ fmtExp (.scoped "sum" [.single "i"] [.call "range" [.int 0, .int 3, .bool false]] (.var "i")) = "sum(i in 0..3) { i }"
+    ∧ fmtExp (.scoped "sum" [.single "i"] [.call "range" [.int 0, .var "n", .bool true]] (.var "i")) = "sum(i in 0..=n) { i }" := by
+  simp [fmtExp, fmtList, fmtIters, fmtIter, iterText, callText, joinWith, wrapLeaf, PExp.isLeaf, IterVar.text, varText, needsEscape,
+    natDigits, digitChar]
+
+/-- an index of a compound variable that is no non-negative integer, integral decimal, name fragment or variable is
+written in braces: `x_{1.5}`, `x_{"a"}`; `x_{2}` and the name fragment `_2` stay bare (C11-float-index-printed-bare,
+C11-string-index-printed-bare, repaired in 7352fcb) -/
+theorem text_index_braces :
+    fmtExp (.cvar "x" [.num "1.5"]) = "x_{1.5}"
+    ∧ fmtExp (.cvar "x" [.str "a"]) = "x_{\"a\"}"
+    ∧ fmtExp (.cvar "x" [.int 2, .var "i"]) = "x_2_i"
+    ∧ fmtExp (.cvar "x" [.num "2"]) = "x_2"
+    ∧ fmtExp (.cvar "set" [.str "_2"]) = "set__2" := by
+  refine ⟨?_, ?_, ?_, ?_, ?_⟩ <;>
+    simp [fmtExp, fmtIndexes, indexText, joinWith, numIndexBare, strIndexBare, isDigit, isLetter, extraLetters, natDigits, digitChar] <;> decide
+
+/-- … and these trees are in the printable fragment, so `parse_format_printable_exp` gives their round trip: the
+exceptions the fragment carried for the two defects are gone -/
+theorem repaired_inputs_printable :
+    coreExp (.call "len" [.call "range" [.int 0, .int 3, .bool false]]) = true
+    ∧ coreExp (.cvar "x" [.num "1.5"]) = true
+    ∧ coreExp (.cvar "x" [.str "a", .var "i"]) = true
+    ∧ coreExp (.cvar "set" [.str "_2"]) = false := by
+  refine ⟨?_, ?_, ?_, ?_⟩ <;>
+    simp [coreExp, coreList, coreIdx, isFunctionName, isPlainRun, isLetter, isDigit, extraLetters, i64Max, isFloatText,
+      numIndexBare, strIndexBare] <;> decide
 
 end Rooc.Props.C11
